@@ -303,9 +303,25 @@ func (s *Sym) of(v ssa.Value) string {
 		return "(" + s.Of(x.X) + " " + x.Op.String() + " " + s.Of(x.Y) + ")"
 	case *ssa.Extract:
 		s.dep(v, x.Tuple)
+		if lk, ok := x.Tuple.(*ssa.Lookup); ok && lk.CommaOk {
+			if val, present, folded := s.FoldLookup(lk); folded {
+				if x.Index == 1 {
+					if present {
+						return "true"
+					}
+					return "false"
+				}
+				return val
+			}
+		}
 		return s.Of(x.Tuple) + "#" + strconv.Itoa(x.Index)
 	case *ssa.Lookup:
 		s.dep(v, x.X, x.Index)
+		if !x.CommaOk {
+			if val, _, folded := s.FoldLookup(x); folded {
+				return val
+			}
+		}
 		return "lookup(" + s.Of(x.X) + "," + s.Of(x.Index) + ")"
 	case *ssa.Call:
 		return s.call(x)
@@ -520,3 +536,47 @@ func (s *Sym) reaching(load *ssa.UnOp, a *ssa.Alloc, path string) (out []*ssa.St
 
 // FieldName returns the name of the field a FieldAddr selects.
 func FieldName(fa *ssa.FieldAddr) string { return fieldName(fa.X.Type(), fa.Field) }
+
+// ConstMaps: package-level maps that are initialised by a literal with constant keys and never written afterwards
+// (set by model.InitConstMaps).  A lookup in such a map with a constant key is folded.
+var ConstMaps map[*ssa.Global]map[string]string
+
+// FoldLookup evaluates a lookup in a constant map when the key's symbol is a constant; val is the symbol of the
+// value found (or of the zero value), present the comma-ok flag.
+func (s *Sym) FoldLookup(lk *ssa.Lookup) (val string, present, folded bool) {
+	u, ok := lk.X.(*ssa.UnOp)
+	if !ok {
+		return "", false, false
+	}
+	g, ok := u.X.(*ssa.Global)
+	if !ok || ConstMaps == nil {
+		return "", false, false
+	}
+	tbl, ok := ConstMaps[g]
+	if !ok {
+		return "", false, false
+	}
+	k := s.Of(lk.Index)
+	isConst := len(k) >= 2 && k[0] == '"' && k[len(k)-1] == '"'
+	if !isConst {
+		if _, isC := lk.Index.(*ssa.Const); !isC {
+			return "", false, false
+		}
+	}
+	if v, ok := tbl[k]; ok {
+		return v, true, true
+	}
+	// zero value of the element type
+	mt := lk.X.Type().Underlying().(*types.Map)
+	switch t := mt.Elem().Underlying().(type) {
+	case *types.Basic:
+		if t.Info()&types.IsString != 0 {
+			return "\"\"", false, true
+		}
+		if t.Info()&types.IsBoolean != 0 {
+			return "false", false, true
+		}
+		return "0", false, true
+	}
+	return "{}", false, true
+}
